@@ -1,3 +1,473 @@
 package main
 
-func runDriver(args []string) int { return 2 }
+import (
+	"encoding/json"
+	"fmt"
+	"os"
+	"path/filepath"
+	"sort"
+	"strconv"
+	"strings"
+	"sync"
+	"time"
+
+	"golang.org/x/tools/go/ssa"
+)
+
+// PropConfig is the per-property configuration in /verif/props.json.
+type PropConfig struct {
+	Title       string   `json:"title"`
+	Schemas     []string `json:"schemas"`      // schema names instantiated for this property
+	MinObls     int      `json:"min_obligations"` // vacuity floor
+	Assumptions []string `json:"assumptions"`
+	Scope       string   `json:"scope"`
+	Unverified  []string `json:"unverified"` // named parts of the property's code left outside contracts
+}
+
+type KnownFinding struct {
+	Property   string `json:"property"`
+	Obligation string `json:"obligation"`
+	Status     string `json:"status"` // finding | fixed
+	Commit     string `json:"commit,omitempty"`
+	What       string `json:"what"`
+	Scenario   string `json:"scenario,omitempty"`
+}
+
+type sample struct {
+	Obligation string  `json:"obligation"`
+	Class      string  `json:"class"`
+	Where      string  `json:"where"`
+	Clause     string  `json:"clause"`
+	Result     string  `json:"result"`
+	Solver     string  `json:"solver"`
+	Secs       float64 `json:"secs"`
+	GoalSMT    string  `json:"goal_smt,omitempty"`
+}
+
+func hasProp(ps []string, p string) bool {
+	for _, x := range ps {
+		if x == p {
+			return true
+		}
+	}
+	return false
+}
+
+func loadJSON(path string, v interface{}) error {
+	b, err := os.ReadFile(path)
+	if err != nil {
+		return err
+	}
+	return json.Unmarshal(b, v)
+}
+
+func runDriver(args []string) int {
+	if len(args) < 2 || args[0] != "check" {
+		fmt.Fprintln(os.Stderr, "usage: icevc check <prop> [quick|thorough]")
+		return 2
+	}
+	prop := args[1]
+	tier := "quick"
+	if len(args) > 2 {
+		tier = args[2]
+	}
+	if t := os.Getenv("VERIF_TIER"); t != "" && len(args) <= 2 {
+		tier = t
+	}
+	seed, _ := strconv.Atoi(os.Getenv("VERIF_SEED"))
+	t0 := time.Now()
+
+	props := map[string]*PropConfig{}
+	if err := loadJSON(filepath.Join(verifDir, "props.json"), &props); err != nil {
+		fmt.Fprintln(os.Stderr, "props.json:", err)
+		return 2
+	}
+	pc := props[prop]
+	if pc == nil {
+		fmt.Fprintln(os.Stderr, "unknown property", prop)
+		return 2
+	}
+	var known []KnownFinding
+	_ = loadJSON(filepath.Join(verifDir, "known_findings.json"), &known)
+
+	w, err := LoadWorld(repoDir, preludeDir)
+	if err != nil {
+		fmt.Fprintln(os.Stderr, "load:", err)
+		return 2
+	}
+	ApplySchemas(w, pc.Schemas, prop)
+	specFns, err := w.RenderSpecFns()
+	if err != nil {
+		fmt.Fprintln(os.Stderr, "spec functions:", err)
+		return 2
+	}
+
+	// translate every function that has a contract (own or synthesized)
+	type job struct {
+		vc *FnVC
+		o  *Obligation
+	}
+	var jobs []job
+	var vcs []*FnVC
+	var fnNames []string
+	for n := range w.Fns {
+		fnNames = append(fnNames, n)
+	}
+	sort.Strings(fnNames)
+	missing := []string{}
+	for n, c := range w.Spec.Contracts {
+		if c.Trusted {
+			continue
+		}
+		if _, ok := w.Fns[n]; !ok && !strings.Contains(n, "/param:") {
+			missing = append(missing, n)
+		}
+	}
+	sort.Strings(missing)
+	machineryErrs := []string{}
+	underContract := []string{}
+	for _, n := range fnNames {
+		c := w.Spec.Contracts[n]
+		if c == nil || c.Trusted {
+			continue
+		}
+		if !hasProp(contractProps(c), prop) {
+			continue
+		}
+		vc := TranslateFn(w, w.Fns[n])
+		vcs = append(vcs, vc)
+		underContract = append(underContract, n)
+		for _, u := range vc.Unsupported {
+			machineryErrs = append(machineryErrs, n+": "+u)
+		}
+	}
+	for _, e := range w.Errors {
+		machineryErrs = append(machineryErrs, "spec: "+e)
+	}
+	// re-render: translation may have registered more signature
+	specFns, _ = w.RenderSpecFns()
+	for _, vc := range vcs {
+		for _, o := range vc.Obls {
+			if hasProp(o.Props, prop) {
+				jobs = append(jobs, job{vc, o})
+			}
+		}
+	}
+
+	dir, _ := os.MkdirTemp("", "icevc-"+prop+"-")
+	if os.Getenv("ICEVC_KEEP") == "" {
+		defer os.RemoveAll(dir)
+	} else {
+		fmt.Println("queries kept in", dir)
+	}
+	timeout := 10
+	all := false
+	if tier == "thorough" {
+		timeout = 60
+		all = true
+	}
+	var wg sync.WaitGroup
+	sem := make(chan struct{}, 14)
+	for _, j := range jobs {
+		wg.Add(1)
+		go func(j job) {
+			defer wg.Done()
+			sem <- struct{}{}
+			defer func() { <-sem }()
+			SolveObligation(w, j.vc, j.o, dir, specFns, timeout, all)
+		}(j)
+	}
+	// vacuity: per function, precondition satisfiable and some return reachable
+	type vac struct {
+		fn     string
+		pre    string
+		reach  string
+	}
+	vacs := make([]vac, len(vcs))
+	for i, vc := range vcs {
+		wg.Add(1)
+		go func(i int, vc *FnVC) {
+			defer wg.Done()
+			sem <- struct{}{}
+			defer func() { <-sem }()
+			vacs[i] = vac{fn: vc.Name}
+			pre := w.vacuityScript(vc, vc.PreLines, True, specFns)
+			vacs[i].pre = Solve(dir, "vac_pre_"+sanitize(vc.Name), pre, 5, false).Status
+			if len(vc.ReachRet) > 0 {
+				r := w.vacuityScript(vc, len(vc.Lines), Or(vc.ReachRet...), specFns)
+				vacs[i].reach = Solve(dir, "vac_reach_"+sanitize(vc.Name), r, 5, false).Status
+			} else {
+				vacs[i].reach = "no-return"
+			}
+		}(i, vc)
+	}
+	wg.Wait()
+	// the global axioms (prelude + memory model) alone must be satisfiable
+	{
+		var b strings.Builder
+		b.WriteString(w.Preamble())
+		for _, h := range w.heapOrder {
+			b.WriteString(fmt.Sprintf("(declare-const %s@0 %s)\n", h, w.heapSort[h]))
+		}
+		b.WriteString(specFns)
+		b.WriteString("(check-sat)\n")
+		if st := Solve(dir, "vac_axioms", b.String(), 10, false).Status; st == "unsat" {
+			machineryErrs = append(machineryErrs, "the global axioms are inconsistent")
+		}
+	}
+
+	// classify
+	discharged, total := 0, len(jobs)
+	solverTime := 0.0
+	bySolver := map[string]int{}
+	var failed []*Obligation
+	var samples []sample
+	singleBackend := []string{}
+	for _, j := range jobs {
+		o := j.o
+		solverTime += o.Result.Secs
+		if o.Result.Status == "unsat" {
+			discharged++
+			bySolver[o.Result.Solver]++
+			if all {
+				n := 0
+				for _, st := range o.Result.All {
+					if st == "unsat" {
+						n++
+					}
+				}
+				if n < 2 {
+					singleBackend = append(singleBackend, o.Name)
+				}
+			}
+		} else {
+			failed = append(failed, o)
+		}
+	}
+	sort.Slice(jobs, func(a, b int) bool { return jobs[a].o.Name < jobs[b].o.Name })
+	for i, j := range jobs {
+		if i%maxInt(1, len(jobs)/6) == 0 && len(samples) < 8 {
+			samples = append(samples, sample{j.o.Name, j.o.Class, j.o.Pos, j.o.Desc, j.o.Result.Status, j.o.Result.Solver, round3(j.o.Result.Secs), clip(Implies(j.o.Guard, j.o.Goal).S, 300)})
+		}
+	}
+
+	exit := 0
+	violations := 0
+	os.MkdirAll(filepath.Join(verifDir, "replays", prop), 0o755)
+	var knownLines []string
+	for _, o := range failed {
+		kf := findKnown(known, prop, o.Name)
+		if kf != nil && kf.Status == "finding" {
+			knownLines = append(knownLines, fmt.Sprintf("KNOWN-FINDING: property=%s %s: %s", prop, o.Name, kf.What))
+			continue
+		}
+		violations++
+		exit = 1
+		rp := writeReplay(w, prop, o, known)
+		suffix := ""
+		if !strings.HasSuffix(rp, ".replayed") {
+			suffix = " no-failing-input-found"
+		}
+		rp = strings.TrimSuffix(rp, ".replayed")
+		fmt.Printf("VIOLATION property=%s replay=%s obligation=%s result=%s%s\n", prop, rp, o.Name, o.Result.Status, suffix)
+	}
+	for _, l := range knownLines {
+		fmt.Println(l)
+	}
+	// obligations whose target vanished
+	for _, m := range missing {
+		c := w.Spec.Contracts[m]
+		if hasProp(contractProps(c), prop) {
+			violations++
+			exit = 1
+			rp := filepath.Join(verifDir, "replays", prop, sanitize("translate:"+m)+".txt")
+			os.WriteFile(rp, []byte("obligation translate:"+m+"\nthe function under contract no longer exists in /repo; its obligations cannot be generated\n"), 0o644)
+			fmt.Printf("VIOLATION property=%s replay=%s obligation=translate:%s no-failing-input-found\n", prop, rp, m)
+		}
+	}
+	// machinery failures
+	vacBad := []string{}
+	for _, v := range vacs {
+		if v.pre == "unsat" {
+			vacBad = append(vacBad, v.fn+": precondition unsatisfiable")
+		}
+		if v.reach == "unsat" {
+			vacBad = append(vacBad, v.fn+": no return reachable under the contract")
+		}
+	}
+	if len(machineryErrs) > 0 || len(vacBad) > 0 || total < pc.MinObls {
+		for _, e := range machineryErrs {
+			fmt.Println("MACHINERY:", e)
+		}
+		for _, e := range vacBad {
+			fmt.Println("MACHINERY: vacuity:", e)
+		}
+		if total < pc.MinObls {
+			fmt.Printf("MACHINERY: only %d obligations generated for %s, floor is %d\n", total, prop, pc.MinObls)
+		}
+		if exit == 0 {
+			exit = 2
+		}
+	}
+
+	// evidence
+	assumed := map[string]bool{}
+	exts := map[string]bool{}
+	for _, vc := range vcs {
+		for _, a := range vc.Assumed {
+			assumed[a] = true
+		}
+		for _, e := range vc.Externals {
+			exts["unmodelled external treated as pure with arbitrary result: "+e] = true
+		}
+	}
+	var assumptions []string
+	for a := range assumed {
+		assumptions = append(assumptions, a)
+	}
+	for a := range exts {
+		assumptions = append(assumptions, a)
+	}
+	assumptions = append(assumptions, pc.Assumptions...)
+	assumptions = append(assumptions,
+		"go/ssa construction, go/types and the Go compiler are trusted; the verified text is the SSA of /repo's working tree at check time",
+		"memory model: objects are references, fields/elements/cells live in typed heaps; no goroutines, unsafe or reflect are modelled",
+		"integers are mathematical; where a function does not claim 'wrap'/'conv' safety, absence of wrap-around is assumed (listed per function)",
+		"termination is not proved unless a 'decreases' clause is given; out-of-memory is not modelled",
+		"solver soundness (z3 4.8.12, z3 5.1.0, cvc5 1.0.3)")
+	sort.Strings(assumptions)
+	var trusted []string
+	for a := range assumed {
+		if strings.HasPrefix(a, "trusted contract: ") {
+			trusted = append(trusted, strings.TrimPrefix(a, "trusted contract: "))
+		}
+	}
+	sort.Strings(trusted)
+	trusted = append(trusted, "icevc translator (/verif/engine)", "SMT solvers")
+	fnStats := []map[string]interface{}{}
+	for _, vc := range vcs {
+		n, d := 0, 0
+		for _, o := range vc.Obls {
+			if hasProp(o.Props, prop) {
+				n++
+				if o.Result.Status == "unsat" {
+					d++
+				}
+			}
+		}
+		fnStats = append(fnStats, map[string]interface{}{"function": vc.Name, "obligations": n, "discharged": d, "mode": "int"})
+	}
+	failedNames := []string{}
+	for _, o := range failed {
+		failedNames = append(failedNames, o.Name+" ["+o.Result.Status+"]")
+	}
+	ev := map[string]interface{}{
+		"property_id": prop,
+		"tier":        tier,
+		"seed":        seed,
+		"level":       "proof",
+		"wall_s":      round3(time.Since(t0).Seconds()),
+		"violations":  violations,
+		"assumptions": assumptions,
+		"coverage": map[string]interface{}{
+			"obligations":              total,
+			"discharged":               discharged,
+			"checker_cmd":              fmt.Sprintf("/verif/check %s %s  (icevc: go/ssa -> weakest-precondition VCs -> z3-new 5.1.0 | z3 4.8.12 | cvc5 1.0.3, one query per obligation, timeout %ds)", prop, tier, timeout),
+			"trusted_base":             trusted,
+			"functions_under_contract": fnStats,
+			"schemas":                  pc.Schemas,
+			"discharged_by_backend":    bySolver,
+			"solver_seconds":           round3(solverTime),
+			"not_discharged":           failedNames,
+			"known_findings":           knownLines,
+			"vacuity":                  map[string]interface{}{"functions_checked": len(vacs), "failures": vacBad},
+			"single_backend_only":      singleBackend,
+			"scope":                    pc.Scope,
+			"unverified_parts":         pc.Unverified,
+			"bounded":                  []string{},
+			"samples":                  samples,
+			"machinery_errors":         machineryErrs,
+		},
+	}
+	os.MkdirAll(filepath.Join(verifDir, "evidence"), 0o755)
+	b, _ := json.MarshalIndent(ev, "", " ")
+	os.WriteFile(filepath.Join(verifDir, "evidence", prop+".json"), b, 0o644)
+	fmt.Printf("%s %s: %d obligations, %d discharged, %d known findings, %d violations, %d functions, %.1fs\n",
+		prop, tier, total, discharged, len(knownLines), violations, len(vcs), time.Since(t0).Seconds())
+	return exit
+}
+
+func maxInt(a, b int) int {
+	if a > b {
+		return a
+	}
+	return b
+}
+
+func round3(x float64) float64 { return float64(int(x*1000)) / 1000 }
+
+func clip(s string, n int) string {
+	if len(s) > n {
+		return s[:n] + "…"
+	}
+	return s
+}
+
+func findKnown(known []KnownFinding, prop, obl string) *KnownFinding {
+	for i := range known {
+		if known[i].Property == prop && known[i].Obligation == obl {
+			return &known[i]
+		}
+	}
+	return nil
+}
+
+func (w *World) vacuityScript(vc *FnVC, nlines int, extra Term, specFns string) string {
+	var b strings.Builder
+	b.WriteString(w.Preamble())
+	for _, h := range w.heapOrder {
+		b.WriteString(fmt.Sprintf("(declare-const %s@0 %s)\n", h, w.heapSort[h]))
+	}
+	b.WriteString(specFns)
+	for _, l := range vc.Lines[:nlines] {
+		if strings.HasSuffix(l, " ;ob") {
+			continue
+		}
+		b.WriteString(l + "\n")
+	}
+	b.WriteString(fmt.Sprintf("(assert %s)\n(check-sat)\n", extra.S))
+	return b.String()
+}
+
+// writeReplay writes the replay file for a failed obligation. Returns the path,
+// with suffix ".replayed" when a scenario reproduction ran and failed on the real code.
+func writeReplay(w *World, prop string, o *Obligation, known []KnownFinding) string {
+	path := filepath.Join(verifDir, "replays", prop, sanitize(o.Name)+".txt")
+	var b strings.Builder
+	b.WriteString("obligation: " + o.Name + "\n")
+	b.WriteString("property:   " + prop + "\n")
+	b.WriteString("class:      " + o.Class + "\n")
+	b.WriteString("where:      " + o.Pos + "\n")
+	b.WriteString("clause:     " + o.Desc + "\n")
+	b.WriteString("result:     " + o.Result.Status + " (" + o.Result.Solver + ")\n")
+	b.WriteString("goal:       " + clip(Implies(o.Guard, o.Goal).S, 2000) + "\n")
+	b.WriteString("solver output:\n" + firstLines(o.Result.Output, 60) + "\n")
+	replayed := false
+	if sc := scenarioFor(o.Name); sc != "" {
+		out, failed := runScenario(sc)
+		b.WriteString("\nscenario replay on the real code (" + sc + "):\n" + out + "\n")
+		if failed {
+			replayed = true
+			b.WriteString("=> the scenario FAILS on /repo's working tree: the counterexample is reproduced\n")
+		} else {
+			b.WriteString("=> the scenario passes on /repo's working tree: not reproduced\n")
+		}
+	}
+	os.WriteFile(path, []byte(b.String()), 0o644)
+	if replayed {
+		return path + ".replayed"
+	}
+	return path
+}
+
+var _ = ssa.BuilderMode(0)
